@@ -67,6 +67,7 @@ struct GOp
 };
 struct GCase
 {
+    bool             big{false};
     int              kind{0};
     bool             sync{false};
     int              types{0};
@@ -87,7 +88,9 @@ const int   kRatioD[] = {2, 1, 8, 4, 4, 1};
 std::string to_text(const GCase& c)
 {
     std::ostringstream s;
-    int                uni = c.cap + c.extra;
+    const bool         big = c.big && (c.kind == 8 || c.kind == 9); // large universes only for the unbounded containers
+    int                uni = big ? 70 + (c.seed % 80) : c.cap + c.extra;
+    const size_t       lim = big ? 128 : 8;
     s << "kind " << kKindName[c.kind] << "\nsync " << (c.sync ? 1 : 0) << "\ntypes " << c.types << "\ncap " << c.cap << "\nuni " << uni << "\nmlf "
       << kMlf[c.mlf_idx] << "\nttl " << c.ttl << "\ntick " << c.tick << "\nratio " << kRatioN[c.ratio_idx] << " " << kRatioD[c.ratio_idx] << "\nseed "
       << c.seed << "\n--\n";
@@ -100,23 +103,23 @@ std::string to_text(const GCase& c)
         {
             case O_INS: s << " " << o.k % uni << " " << o.allow << " " << o.ttl; break;
             case O_INSR:
-                s << " " << o.allow << " " << o.flavour << " " << o.elems.size();
-                for (auto& e : o.elems)
-                    s << " " << e.k % uni << " " << e.ttl;
+                s << " " << o.allow << " " << o.flavour << " " << std::min(lim, o.elems.size());
+                for (size_t i = 0; i < o.elems.size() && i < lim; ++i)
+                    s << " " << o.elems[i].k % uni << " " << o.elems[i].ttl;
                 break;
             case O_ERA: s << " " << o.k % uni; break;
             case O_ERAR:
-                s << " " << o.flavour << " " << o.elems.size();
-                for (auto& e : o.elems)
-                    s << " " << e.k % uni;
+                s << " " << o.flavour << " " << std::min(lim, o.elems.size());
+                for (size_t i = 0; i < o.elems.size() && i < lim; ++i)
+                    s << " " << o.elems[i].k % uni;
                 break;
             case O_FIND:
             case O_FINDUC: s << " " << o.k % uni << " " << (o.peek ? 1 : 0); break;
             case O_FINDR:
             case O_FINDRF:
-                s << " " << (o.peek ? 1 : 0) << " " << o.flavour << " " << o.elems.size();
-                for (auto& e : o.elems)
-                    s << " " << e.k % uni;
+                s << " " << (o.peek ? 1 : 0) << " " << o.flavour << " " << std::min(lim, o.elems.size());
+                for (size_t i = 0; i < o.elems.size() && i < lim; ++i)
+                    s << " " << o.elems[i].k % uni;
                 break;
             case O_UTTL: s << " " << o.ttl; break;
             case O_ADV: s << " " << o.dt; break;
@@ -140,6 +143,7 @@ struct Profile
     int              w_scan2{30};   // percent of explicit scans that also probe expired keys
     int              splice_pct{0}; // twin-noop: percent of ops generated as spliced no-effect candidates
     bool             long_ticks{false};
+    int              big_pct{0};    // percent of cases with a large key universe and bulk range calls (unbounded containers)
 };
 
 std::vector<int> all_kinds() { return {0, 1, 2, 3, 4, 5, 6, 7, 8, 9}; }
@@ -154,12 +158,16 @@ Profile make_profile(const std::string& name)
     p.ttls = {{2, 0}, {6, 1}, {8, 2}, {8, 3}, {10, 5}, {6, 8}, {6, 50}, {4, 1000}};
     p.caps = {{12, 1}, {20, 2}, {20, 3}, {14, 4}, {6, 5}, {4, 6}, {3, 7}, {3, 8}, {1, 16}, {1, 33}};
     if (name == "general")
+    {
+        p.big_pct = 6;
         return p;
+    }
     if (name == "ttl") // C04 C05 C16 C17
     {
         p.kinds      = {6, 7, 8, 9};
         int w[]      = {34, 5, 5, 2, 10, 0, 3, 2, 6, 0, 5, 1, 8, 16, 3, 0};
         std::memcpy(p.w, w, sizeof w);
+        p.big_pct = 8;
         return p;
     }
     if (name == "ttlfull") // C16: keep the cache full with a mix of live and expired entries, few reaping lookups
@@ -177,6 +185,7 @@ Profile make_profile(const std::string& name)
         int w[] = {40, 4, 3, 1, 3, 0, 1, 1, 12, 0, 6, 0, 8, 20, 1, 0};
         std::memcpy(p.w, w, sizeof w);
         p.w_scan2 = 0;
+        p.big_pct = 8;
         return p;
     }
     if (name == "recency") // C10 C13
@@ -207,9 +216,10 @@ Profile make_profile(const std::string& name)
     if (name == "lfuda") // C14
     {
         p.kinds = {4};
-        int w[] = {30, 3, 4, 1, 16, 8, 4, 3, 0, 10, 0, 0, 6, 16, 1, 0};
+        int w[] = {24, 3, 3, 1, 20, 8, 4, 3, 0, 14, 0, 0, 10, 22, 1, 0};
         std::memcpy(p.w, w, sizeof w);
-        p.w_peek = 35;
+        p.w_peek = 30;
+        p.caps   = {{4, 1}, {24, 2}, {26, 3}, {20, 4}, {8, 5}, {4, 6}};
         return p;
     }
     if (name == "rr") // C15
@@ -271,14 +281,17 @@ rc::Gen<GOp> gen_op(const Profile& p)
             codes.emplace_back(static_cast<std::size_t>(p.w[i]), i);
     auto ttl   = weighted<int>(p.ttls);
     auto elem  = rc::gen::build<GElem>(rc::gen::set(&GElem::k, uni_int(0, 47)), rc::gen::set(&GElem::ttl, ttl));
-    auto elems = rc::gen::resize(8, rc::gen::container<std::vector<GElem>>(elem));
+    auto small = rc::gen::resize(8, rc::gen::container<std::vector<GElem>>(elem));
+    auto belem = rc::gen::build<GElem>(rc::gen::set(&GElem::k, uni_int(0, 159)), rc::gen::set(&GElem::ttl, ttl));
+    auto bulk  = rc::gen::resize(120, rc::gen::container<std::vector<GElem>>(belem));
+    auto elems = p.big_pct > 0 ? rc::gen::oneOf(small, small, small, small, small, bulk) : small;
     std::vector<std::pair<std::size_t, long long>> dts = {{2, 0},        {2, 1},        {3, 999999},    {6, 1000000},  {3, 1000001}, {6, 2000000},
                                                           {6, 3000000},  {3, 2999999},  {6, 5000000},   {2, 4999999},  {2, 5000001}, {3, 8000000},
                                                           {2, 10000000}, {2, 50000000}, {1, 1000000000}};
     return rc::gen::build<GOp>(
         rc::gen::set(&GOp::code, weighted<int>(codes)),
         rc::gen::set(&GOp::splice, rc::gen::map(uni_int(0, 99), [pct = p.splice_pct](int v) { return v < pct; })),
-        rc::gen::set(&GOp::k, uni_int(0, 47)),
+        rc::gen::set(&GOp::k, uni_int(0, 159)),
         rc::gen::set(&GOp::allow, weighted<int>({{6, 3}, {2, 1}, {2, 2}})),
         rc::gen::set(&GOp::ttl, ttl),
         rc::gen::set(&GOp::peek, rc::gen::map(uni_int(0, 99), [pct = p.w_peek](int v) { return v < pct; })),
@@ -296,6 +309,7 @@ rc::Gen<GCase> gen_case(const Profile& p, const std::vector<int>& kinds)
                                                                   : std::vector<std::pair<std::size_t, int>>{{3, 1}, {4, 2}, {5, 5}, {3, 10}};
     return rc::gen::build<GCase>(
         rc::gen::set(&GCase::kind, rc::gen::elementOf(kinds)),
+        rc::gen::set(&GCase::big, rc::gen::map(uni_int(0, 99), [pct = p.big_pct](int v) { return v < pct; })),
         rc::gen::set(&GCase::sync, rc::gen::map(uni_int(0, 3), [](int v) { return v == 0; })),
         rc::gen::set(&GCase::types, weighted<int>({{4, 0}, {1, 1}})),
         rc::gen::set(&GCase::cap, weighted<int>(p.caps)),
